@@ -136,7 +136,7 @@ def make_inputs(k, n_inputs, seed):
                 rec[nm] = rng.choice([0, 1, 1, 2, 3, 5, 7]) if rng.random() < 0.8 else rng.randrange(0, 64)
             elif kind == 'z':
                 n = lanes(k.ty, k.arch) if k.ty in TYPES else 4
-                rec[nm] = rng.randrange(0, min(n, 4)) if rng.random() < 0.5 else rng.getrandbits(min(n, 63))
+                rec[nm] = rng.getrandbits(min(n, 63)) if k.op == 'from_mask' else rng.randrange(0, n)      # indices stay in range: an out-of-range index corrupts the native driver's stack
             elif kind == 'b': rec[nm] = rng.random() < 0.5
             elif kind == 'T': rec[nm] = lane_value(rng, ty)
         out.append(rec)
